@@ -19,6 +19,8 @@ import Proofs.Lemmas.CombinkL
 import Proofs.Lemmas.CombsSpecL
 import Proofs.Lemmas.KnapsackL
 import Proofs.Lemmas.DynprogL
+import Proofs.Lemmas.NextpermOrderL
+import Proofs.Lemmas.NextpermL
 namespace Proofs.C20
 open Model Model.Perms Model.Knapsack
 
@@ -66,6 +68,46 @@ theorem permutk_nodup_mem (l : List α) (k : Nat) (hk : k ≤ l.length) :
       exact ⟨p, (Proofs.Lemmas.PermsSpecL.mem_perms _ _ rfl p).1 hp, rfl⟩
     · rintro ⟨p, hp, rfl⟩
       exact ⟨p, (Proofs.Lemmas.PermsSpecL.mem_perms _ _ rfl p).2 hp, rfl⟩
+
+/-! ## nextperm -/
+
+/-- **nextperm_succ**: for every list of ints (repeated elements and the empty list included) `nextperm` succeeds, the
+    result is a rearrangement of the input, and with the lexicographic order `<` on lists:
+    if some arrangement of l is greater than l, the result is the least such arrangement (the lexicographic successor);
+    otherwise (l is the last arrangement) the result is the ascending one (the first arrangement: wrap-around) -/
+theorem nextperm_succ (l : List Int) :
+    ∃ r, nextperm l = .ok r ∧ r.Perm l
+      ∧ ((∃ p : List Int, p.Perm l ∧ l < p) → l < r ∧ ∀ p : List Int, p.Perm l → l < p → ¬ p < r)
+      ∧ ((¬ ∃ p : List Int, p.Perm l ∧ l < p) → r.Pairwise (· ≤ ·)) := by
+  rcases Proofs.Lemmas.NextpermL.nextperm_cases l with ⟨hd, hr⟩ | ⟨pre, suf, rest, a, b, hl, hsuf, hrest, hab, hb, hbmin, hperm, hr⟩
+  · refine ⟨l.reverse, hr, List.reverse_perm l, ?_, ?_⟩
+    · intro h
+      exact absurd h (Proofs.Lemmas.NextpermOrderL.desc_no_succ l hd)
+    · intro _
+      rw [List.pairwise_reverse]
+      exact hd
+  · have hpermr : (pre ++ b :: rest).Perm l := by
+      rw [hl]; exact List.Perm.append_left pre hperm
+    have hlt : l < pre ++ b :: rest := by
+      rw [hl]; exact Proofs.Lemmas.NextpermOrderL.pivot_lt a b suf rest pre hab
+    refine ⟨pre ++ b :: rest, hr, hpermr, ?_, ?_⟩
+    · intro _
+      refine ⟨hlt, ?_⟩
+      intro p hp hlp
+      rw [hl] at hp hlp
+      exact List.not_lt.2 (Proofs.Lemmas.NextpermOrderL.pivot_least a b suf rest hsuf hrest hbmin hperm pre p hp hlp)
+    · intro h
+      exact absurd ⟨_, hpermr, hlt⟩ h
+
+/-- the successor is unique: any r' that is a least greater arrangement equals the result (so `nextperm` IS the
+    successor function, not merely one of several admissible answers) -/
+theorem nextperm_unique (l r r' : List Int) (h : nextperm l = .ok r)
+    (h1 : r'.Perm l) (h2 : l < r') (h3 : ∀ p : List Int, p.Perm l → l < p → ¬ p < r') : r' = r := by
+  obtain ⟨r0, hr0, hp0, hs0, _⟩ := nextperm_succ l
+  rw [h] at hr0
+  cases hr0
+  obtain ⟨hlt, hmin⟩ := hs0 ⟨r', h1, h2⟩
+  exact List.le_antisymm (List.not_lt.1 (h3 r hp0 hlt)) (List.not_lt.1 (hmin r' h1 h2))
 
 /-! ## combink -/
 
@@ -194,6 +236,7 @@ theorem dynprog_partial (l : List Item) (hpos : ∀ it ∈ l, 0 < weight it) (s 
 /-! ## non-vacuity -/
 
 example : (permutk [1, 2, 3] 1).1 = [[1, 2, 3], [1, 3, 2]] ∧ (permutk [1, 2, 3] 1).2 = [1, 2, 3] := by decide
+example : (nextperm [1, 2, 1]).toOption = some [2, 1, 1] ∧ (nextperm [3, 2, 1]).toOption = some [1, 2, 3] := by decide +kernel
 example : (combink [1, 2, 3, 4] 2 0).toOption = some [[1, 2], [1, 3], [1, 4], [2, 3], [2, 4], [3, 4]] := by decide +kernel
 example : ∀ it ∈ ([(1, 3), (2, 5), (3, 2), (4, 7)] : List Item), 0 < weight it := by decide
 example : exactsum [(1, 3), (2, 5), (3, 2), (4, 7)] 12 = some [(4, 7), (3, 2), (1, 3)] := by decide +kernel
